@@ -3,7 +3,7 @@ from ..common import Check
 from .. import gficheck, gfirecord
 
 QUICK = ["f2", "fn3", "fb", "fv", "fvf", "fs", "fc", "fd", "fa", "fsk"]
-THOROUGH = QUICK + ["fr", "fvc", "frk", "fvi", "fcv", "fcg", "fch", "fs2", "fvcb", "fe", "fve", "fvs", "fsc", "f3d", "cTF", "vf", "sc"]
+THOROUGH = QUICK + ["fr", "fvc", "frk", "fvi", "fcv", "fcg", "fch", "fs2", "fvcb", "fe", "fve", "fsc", "f3d", "cTF", "vf", "sc"]
 INV = ["Coherent", "GenerateOK", "GenUnbiased"]
 
 
